@@ -558,7 +558,8 @@ def feed_case(case, batch, corr, seen_writes):
                tuple(size_class(len(p)) for p in packets), case["max_s"], snd["end"], rcv["end"], len(rcv["got"]))
         if packets:
             corr.signatures.add(sig)
-        return dict(case=compact(case), send=send_text(snd)[:120], recv=recv_text(rcv)[:120])
+        return dict(case=compact(case), send_script=Script(sscript).text()[:300], recv_script=Script(rscript).text()[:300],
+                    packet_lengths=[len(p) for p in packets], send=send_text(snd)[:120], recv=recv_text(rcv)[:120])
     if op == "reads":
         res = run_reads(case["kind"], case["max"], bytes.fromhex(case["wire"]), case["script"], case["counts"])
         want = " ".join(res["results"]) + " | %s %d %d" % (res["closed"], res["left"], res["rest"])
